@@ -217,16 +217,18 @@ def contigs_strategy():
     @st.composite
     def case(draw):
         nc = draw(st.integers(1, 4))
-        contigs = [['c%d' % i, draw(st.integers(1, 80))] for i in range(nc)]
+        pre = draw(st.sampled_from(['c', 'c', 'chr', '']))        # '' = purely numeric contig names (Ensembl style 1, 2, ...)
+        nm = lambda i: '%s%d' % (pre, i + 1)
+        contigs = [[nm(i), draw(st.integers(1, 80))] for i in range(nc)]
         bl = []
         for _ in range(draw(st.integers(0, 6))):
             ci = draw(st.integers(0, nc))   # nc = contig that does not exist in the resource
             ln = contigs[ci][1] if ci < nc else 50
             a = draw(st.integers(0, ln + 1))
-            bl.append(['c%d' % ci, a, a + draw(st.integers(1, 12))])
+            bl.append([nm(ci), a, a + draw(st.integers(1, 12))])
         b = draw(st.integers(1, 30))
         F = draw(st.sampled_from([None, 0, 1, 3, 10, 40]))
-        wl = draw(st.one_of(st.none(), st.lists(st.sampled_from(['c%d' % i for i in range(nc)]), unique=True, min_size=1)))
+        wl = draw(st.one_of(st.none(), st.lists(st.sampled_from([nm(i) for i in range(nc)]), unique=True, min_size=1)))
         return {'contigs': contigs, 'bed': bl, 'bin': b, 'frag': F, 'whitelist': wl, 'gz': draw(st.booleans())}
     return case()
 
